@@ -117,6 +117,8 @@ let () =
              else FileErr in
            let o = main libm clock sched nfuel argv fsys (cps_of_field (fld 4)) in
            Buffer.add_string out (Printf.sprintf "%s\t%s\n" id (outcome_s o))
+       | "nfc" ->
+           Buffer.add_string out (Printf.sprintf "%s\t%s\n" id (buf_cps (nfc (cps_of_field (fld 2)))))
        | "textnum" ->
            let f = f_of_bits (z_of_string (fld 2)) in
            Buffer.add_string out (Printf.sprintf "%s\t%s\n" id
